@@ -110,6 +110,9 @@ def make_target(t):
     else:
         name = 'meth' if t['kind'] == 'method' else '__call__'
         src = 'class Stub(object):\n    def %s(self%s):\n        EVALS.append(1)\n        return 0\n' % (name, (', ' + pl) if pl else '')
+        if t.get('falsy'):        # an instance that is false in a boolean context (an empty container, a zero, ...)
+            src += '    def __len__(self):\n        return 0\n'
+
         ns = {'EVALS': EVALS, '__name__': 'harness_valid_stubs'}
         exec(src, ns)
         inst = ns['Stub']()
@@ -165,6 +168,8 @@ def _run_chunk(job):
     out = [run_target(klepto, t, calls) for t in targets]
     # plain functions (and partials over them) once more as functools.wraps-decorated wrappers
     out += [run_target(klepto, dict(t, wraps=True), calls) for t in targets if t['kind'] == 'func']
+    # bound methods and callable instances once more with an instance that is falsy
+    out += [run_target(klepto, dict(t, falsy=True), calls) for n, t in enumerate(targets) if t['kind'] != 'func' and n % 2 == 0]
     return out
 
 
@@ -186,7 +191,7 @@ def signature(t, v):
     return {'engine': 'valid', 'clauses': v[1], 'kind': tg['kind'], 'partial': tg['partial'], 'wraps': bool(tg.get('wraps')),
             'partial_over_bound': bool(tg['partial'] and tg['kind'] != 'func'),
             'kwonly': bool(kon), 'varargs': tg['sig']['va'], 'varkw': tg['sig']['vk'],
-            'posonly': any(p.get('po') for p in tg['sig']['pos']),
+            'posonly': any(p.get('po') for p in tg['sig']['pos']), 'falsy_instance': bool(tg.get('falsy')),
             # a partial that fixes a KEYWORD named like a positional-only parameter of the function
             'partial_kw_posonly': bool(tg['partial']) and any(n in {p['n'] for p in tg['sig']['pos'] if p.get('po')} for n in tg['pk']),
             'isvalid': e['isvalid'], 'validate': e['validate'], 'actual': e['actual']}
@@ -245,7 +250,7 @@ def main(pid, tier):
     valid_cases = sum(1 for t in traces for e in t['events'] if e['actual'] == 'ok')
     classes = {}
     for t in traces:
-        k = '%s%s%s' % (t['t']['kind'], '+wraps' if t['t'].get('wraps') else '', '+partial' if t['t']['partial'] else '')
+        k = '%s%s%s%s' % (t['t']['kind'], '+wraps' if t['t'].get('wraps') else '', '+falsy' if t['t'].get('falsy') else '', '+partial' if t['t']['partial'] else '')
         c = classes.setdefault(k, {'targets': 0, 'valid': 0, 'invalid': 0})
         c['targets'] += 1
         for e in t['events']:
